@@ -21,6 +21,10 @@ package bpmn
 
 // ---------------------------------------------------------------------------
 // gateway.go
+//
+// Style note: quantified clauses range over absolute positions (p in the event
+// log, a in a backing array) so that the bound variable occurs bare as an index;
+// this keeps instantiation by the SMT solvers robust.
 
 //@ spec func shareHi(k int, n int, m int) int = (k == n-1 ? m : k+1)
 //@ spec func shareGets(k int, n int, m int) bool = k < shareHi(k, n, m) && shareHi(k, n, m) <= m
@@ -29,32 +33,34 @@ package bpmn
 //@   prop C03 C05
 //@   modifies fresh elems([]int)
 //@   ensures [count] evlen == old(evlen) + len(awaitingActions)
-//@   ensures [to-each-in-order] forall k int :: 0 <= k && k < len(awaitingActions) ==>
-//@             isSend(Δev(k)) && evch(Δev(k)) == awaitingActions[k]
-//@   ensures [share] forall k int :: 0 <= k && k < len(awaitingActions) && shareGets(k, len(awaitingActions), len(sequenceFlows)) ==>
-//@             is(evval(Δev(k)), flowAction) &&
-//@             evval(Δev(k)).(flowAction).sequenceFlows == sequenceFlows[k:shareHi(k, len(awaitingActions), len(sequenceFlows))] &&
-//@             len(evval(Δev(k)).(flowAction).unconditionalFlows) == shareHi(k, len(awaitingActions), len(sequenceFlows)) - k &&
-//@             evval(Δev(k)).(flowAction).response == nil
-//@   ensures [share-unconditional] forall k int, a int :: 0 <= k && k < len(awaitingActions) && shareGets(k, len(awaitingActions), len(sequenceFlows)) &&
-//@             k <= a && a < shareHi(k, len(awaitingActions), len(sequenceFlows)) ==>
-//@             evval(Δev(k)).(flowAction).unconditionalFlows[a - k] == a - k
-//@   ensures [surplus-complete] forall k int :: 0 <= k && k < len(awaitingActions) && !shareGets(k, len(awaitingActions), len(sequenceFlows)) ==>
-//@             is(evval(Δev(k)), completeAction)
+//@   ensures [to-each-in-order] forall p int :: old(evlen) <= p && p < evlen ==>
+//@             isSend(ev(p)) && evch(ev(p)) == awaitingActions[p - old(evlen)]
+//@   ensures [share] forall p int :: old(evlen) <= p && p < evlen && shareGets(p - old(evlen), len(awaitingActions), len(sequenceFlows)) ==>
+//@             is(evval(ev(p)), flowAction) &&
+//@             evval(ev(p)).(flowAction).sequenceFlows == sequenceFlows[p - old(evlen):shareHi(p - old(evlen), len(awaitingActions), len(sequenceFlows))] &&
+//@             len(evval(ev(p)).(flowAction).unconditionalFlows) == shareHi(p - old(evlen), len(awaitingActions), len(sequenceFlows)) - (p - old(evlen)) &&
+//@             off(evval(ev(p)).(flowAction).unconditionalFlows) == 0 &&
+//@             fresh(base(evval(ev(p)).(flowAction).unconditionalFlows)) &&
+//@             evval(ev(p)).(flowAction).response == nil
+//@   ensures [share-unconditional] forall p int, a int :: old(evlen) <= p && p < evlen && shareGets(p - old(evlen), len(awaitingActions), len(sequenceFlows)) &&
+//@             0 <= a && a < len(evval(ev(p)).(flowAction).unconditionalFlows) ==>
+//@             at(evval(ev(p)).(flowAction).unconditionalFlows, a) == a
+//@   ensures [surplus-complete] forall p int :: old(evlen) <= p && p < evlen && !shareGets(p - old(evlen), len(awaitingActions), len(sequenceFlows)) ==>
+//@             is(evval(ev(p)), completeAction)
 //@   loop 1 range indices
-//@     invariant forall j int :: 0 <= j && j < i ==> indices[j] == j
+//@     invariant forall a int :: 0 <= a && a < i ==> at(indices, a) == a
 //@     invariant preserved("elems([]int)")
 //@   loop 2 range awaitingActions
 //@     invariant evlen == old(evlen) + i
-//@     invariant forall j int :: 0 <= j && j < len(indices) ==> indices[j] == j
-//@     invariant forall k int :: 0 <= k && k < i ==> isSend(Δev(k)) && evch(Δev(k)) == awaitingActions[k]
-//@     invariant forall k int :: 0 <= k && k < i && shareGets(k, len(awaitingActions), len(sequenceFlows)) ==>
-//@             is(evval(Δev(k)), flowAction) &&
-//@             evval(Δev(k)).(flowAction).sequenceFlows == sequenceFlows[k:shareHi(k, len(awaitingActions), len(sequenceFlows))] &&
-//@             evval(Δev(k)).(flowAction).unconditionalFlows == indices[0:shareHi(k, len(awaitingActions), len(sequenceFlows)) - k] &&
-//@             evval(Δev(k)).(flowAction).response == nil
-//@     invariant forall k int :: 0 <= k && k < i && !shareGets(k, len(awaitingActions), len(sequenceFlows)) ==>
-//@             is(evval(Δev(k)), completeAction)
+//@     invariant forall a int :: 0 <= a && a < len(indices) ==> at(indices, a) == a
+//@     invariant forall p int :: old(evlen) <= p && p < evlen ==> isSend(ev(p)) && evch(ev(p)) == awaitingActions[p - old(evlen)]
+//@     invariant forall p int :: old(evlen) <= p && p < evlen && shareGets(p - old(evlen), len(awaitingActions), len(sequenceFlows)) ==>
+//@             is(evval(ev(p)), flowAction) &&
+//@             evval(ev(p)).(flowAction).sequenceFlows == sequenceFlows[p - old(evlen):shareHi(p - old(evlen), len(awaitingActions), len(sequenceFlows))] &&
+//@             evval(ev(p)).(flowAction).unconditionalFlows == indices[0:shareHi(p - old(evlen), len(awaitingActions), len(sequenceFlows)) - (p - old(evlen))] &&
+//@             evval(ev(p)).(flowAction).response == nil
+//@     invariant forall p int :: old(evlen) <= p && p < evlen && !shareGets(p - old(evlen), len(awaitingActions), len(sequenceFlows)) ==>
+//@             is(evval(ev(p)), completeAction)
 
 // ---------------------------------------------------------------------------
 // flow_node.go
@@ -64,12 +70,12 @@ package bpmn
 //@   requires forall k int :: 0 <= k && k < len(exclusion) ==> exclusion[k] != nil
 //@   modifies fresh elems([]*SequenceFlow)
 //@   ensures [no-events-without-exclusion] len(exclusion) == 0 ==> evlen == old(evlen)
-//@   ensures [all-when-no-exclusion] len(exclusion) == 0 ==> len(result) == len(*sequenceFlows) &&
-//@             forall i int :: 0 <= i && i < len(result) ==> result[i] == elemptr(*sequenceFlows, i)
+//@   ensures [all-when-no-exclusion] len(exclusion) == 0 ==> len(result) == len(*sequenceFlows) && off(result) == 0 &&
+//@             forall a int :: 0 <= a && a < len(result) ==> at(result, a) == elemptr(*sequenceFlows, a)
 //@   ensures [fresh-result] fresh(base(result))
 //@   loop 1 range *sequenceFlows
-//@     invariant len(exclusion) == 0 ==> len(result) == i && forall j int :: 0 <= j && j < i ==> result[j] == elemptr(*sequenceFlows, j)
-//@     invariant fresh(base(result))
+//@     invariant len(exclusion) == 0 ==> len(result) == i && off(result) == 0 && forall a int :: 0 <= a && a < i ==> at(result, a) == elemptr(*sequenceFlows, a)
+//@     invariant fresh(base(result)) && off(result) == 0
 //@     invariant len(result) <= i
 //@     invariant len(exclusion) == 0 ==> evlen == old(evlen)
 //@     invariant preserved("elems([]*SequenceFlow)")
@@ -93,6 +99,7 @@ package bpmn
 //@ func (*parallelGateway).flowWhenReady
 //@   prop C03
 //@   requires gw.wiring != nil
+//@   requires 0 <= gw.reportedIncomingFlows && gw.reportedIncomingFlows <= gw.noOfIncomingFlows && len(gw.awaitingActions) == gw.reportedIncomingFlows
 //@   modifies gw.reportedIncomingFlows, gw.awaitingActions, fresh elems([]chan IAction), fresh elems([]*SequenceFlow), fresh elems([]int)
 //@   ensures [not-ready] old(gw.reportedIncomingFlows) != old(gw.noOfIncomingFlows) ==>
 //@             evlen == old(evlen) && gw.reportedIncomingFlows == old(gw.reportedIncomingFlows) &&
@@ -101,24 +108,30 @@ package bpmn
 //@             gw.reportedIncomingFlows == 0 && len(gw.awaitingActions) == 0 &&
 //@             evlen == old(evlen) + len(old(gw.awaitingActions))
 //@   ensures [ready-one-action-each] old(gw.reportedIncomingFlows) == old(gw.noOfIncomingFlows) ==>
-//@             forall k int :: 0 <= k && k < len(old(gw.awaitingActions)) ==>
-//@               isSend(Δev(k)) && evch(Δev(k)) == old(gw.awaitingActions[k])
+//@             forall p int :: old(evlen) <= p && p < evlen ==>
+//@               isSend(ev(p)) && evch(ev(p)) == old(gw.awaitingActions[p - evlen])
 //@   ensures [ready-each-outgoing-once] old(gw.reportedIncomingFlows) == old(gw.noOfIncomingFlows) ==>
-//@             forall k int :: 0 <= k && k < len(old(gw.awaitingActions)) &&
-//@               shareGets(k, len(old(gw.awaitingActions)), len(gw.wiring.outgoing)) ==>
-//@               is(evval(Δev(k)), flowAction) &&
-//@               len(evval(Δev(k)).(flowAction).sequenceFlows) == shareHi(k, len(old(gw.awaitingActions)), len(gw.wiring.outgoing)) - k &&
-//@               len(evval(Δev(k)).(flowAction).unconditionalFlows) == len(evval(Δev(k)).(flowAction).sequenceFlows)
+//@             forall p int :: old(evlen) <= p && p < evlen &&
+//@               shareGets(p - old(evlen), len(old(gw.awaitingActions)), len(gw.wiring.outgoing)) ==>
+//@               is(evval(ev(p)), flowAction) &&
+//@               len(evval(ev(p)).(flowAction).sequenceFlows) == shareHi(p - old(evlen), len(old(gw.awaitingActions)), len(gw.wiring.outgoing)) - (p - old(evlen)) &&
+//@               off(evval(ev(p)).(flowAction).sequenceFlows) == p - old(evlen) &&
+//@               len(evval(ev(p)).(flowAction).unconditionalFlows) == len(evval(ev(p)).(flowAction).sequenceFlows) &&
+//@               off(evval(ev(p)).(flowAction).unconditionalFlows) == 0
 //@   ensures [ready-flows-are-the-outgoing] old(gw.reportedIncomingFlows) == old(gw.noOfIncomingFlows) ==>
-//@             forall k int, a int :: 0 <= k && k < len(old(gw.awaitingActions)) &&
-//@               shareGets(k, len(old(gw.awaitingActions)), len(gw.wiring.outgoing)) &&
-//@               k <= a && a < shareHi(k, len(old(gw.awaitingActions)), len(gw.wiring.outgoing)) ==>
-//@                 evval(Δev(k)).(flowAction).sequenceFlows[a - k] == elemptr(gw.wiring.outgoing, a) &&
-//@                 evval(Δev(k)).(flowAction).unconditionalFlows[a - k] == a - k
+//@             forall p int, a int :: old(evlen) <= p && p < evlen &&
+//@               shareGets(p - old(evlen), len(old(gw.awaitingActions)), len(gw.wiring.outgoing)) &&
+//@               p - old(evlen) <= a && a < shareHi(p - old(evlen), len(old(gw.awaitingActions)), len(gw.wiring.outgoing)) ==>
+//@                 at(evval(ev(p)).(flowAction).sequenceFlows, a) == elemptr(gw.wiring.outgoing, a)
+//@   ensures [ready-flows-unconditional] old(gw.reportedIncomingFlows) == old(gw.noOfIncomingFlows) ==>
+//@             forall p int, a int :: old(evlen) <= p && p < evlen &&
+//@               shareGets(p - old(evlen), len(old(gw.awaitingActions)), len(gw.wiring.outgoing)) &&
+//@               0 <= a && a < len(evval(ev(p)).(flowAction).unconditionalFlows) ==>
+//@                 at(evval(ev(p)).(flowAction).unconditionalFlows, a) == a
 //@   ensures [ready-surplus-consumed] old(gw.reportedIncomingFlows) == old(gw.noOfIncomingFlows) ==>
-//@             forall k int :: 0 <= k && k < len(old(gw.awaitingActions)) &&
-//@               !shareGets(k, len(old(gw.awaitingActions)), len(gw.wiring.outgoing)) ==>
-//@               is(evval(Δev(k)), completeAction)
+//@             forall p int :: old(evlen) <= p && p < evlen &&
+//@               !shareGets(p - old(evlen), len(old(gw.awaitingActions)), len(gw.wiring.outgoing)) ==>
+//@               is(evval(ev(p)), completeAction)
 //@   ensures gw.noOfIncomingFlows == old(gw.noOfIncomingFlows) && gw.wiring == old(gw.wiring) && gw.mch == old(gw.mch)
 
 //@ func (*parallelGateway).run
@@ -132,37 +145,52 @@ package bpmn
 //@     invariant gw.wiring != nil && pgInv(gw) && gw.noOfIncomingFlows >= 1
 //@     invariant gw.noOfIncomingFlows == old(gw.noOfIncomingFlows) && gw.wiring == old(gw.wiring) && gw.mch == old(gw.mch)
 //@     iter ensures [arrival-below-threshold-parks]
-//@       isRecv(Δev(0)) && evch(Δev(0)) == gw.mch && is(evval(Δev(0)), nextActionMessage) &&
+//@       isRecv(ev(old(evlen))) && evch(ev(old(evlen))) == gw.mch && is(evval(ev(old(evlen))), nextActionMessage) &&
 //@       old(gw.reportedIncomingFlows) + 1 < gw.noOfIncomingFlows ==>
 //@         gw.reportedIncomingFlows == old(gw.reportedIncomingFlows) + 1 &&
-//@         gw.awaitingActions[len(gw.awaitingActions) - 1] == evval(Δev(0)).(nextActionMessage).response &&
+//@         gw.awaitingActions[len(gw.awaitingActions) - 1] == evval(ev(old(evlen))).(nextActionMessage).response &&
 //@         (forall k int :: 0 <= k && k < old(len(gw.awaitingActions)) ==> gw.awaitingActions[k] == old(gw.awaitingActions[k])) &&
-//@         evlen == old(evlen) + 2 && isTrace(Δev(1)) && is(evval(Δev(1)), IncomingFlowProcessedTrace)
+//@         evlen == old(evlen) + 2 && isTrace(ev(old(evlen) + 1)) && is(evval(ev(old(evlen) + 1)), IncomingFlowProcessedTrace)
 //@     iter ensures [nth-arrival-releases-all]
-//@       isRecv(Δev(0)) && evch(Δev(0)) == gw.mch && is(evval(Δev(0)), nextActionMessage) &&
+//@       isRecv(ev(old(evlen))) && evch(ev(old(evlen))) == gw.mch && is(evval(ev(old(evlen))), nextActionMessage) &&
 //@       old(gw.reportedIncomingFlows) + 1 == gw.noOfIncomingFlows ==>
 //@         gw.reportedIncomingFlows == 0 && len(gw.awaitingActions) == 0 &&
 //@         evlen == old(evlen) + 1 + gw.noOfIncomingFlows + 1 &&
-//@         (forall k int :: 0 <= k && k < gw.noOfIncomingFlows - 1 ==> isSend(Δev(1 + k)) && evch(Δev(1 + k)) == old(gw.awaitingActions[k])) &&
-//@         isSend(Δev(gw.noOfIncomingFlows)) && evch(Δev(gw.noOfIncomingFlows)) == evval(Δev(0)).(nextActionMessage).response &&
-//@         isTrace(Δev(gw.noOfIncomingFlows + 1)) && is(evval(Δev(gw.noOfIncomingFlows + 1)), IncomingFlowProcessedTrace)
+//@         (forall p int :: old(evlen) + 1 <= p && p < old(evlen) + gw.noOfIncomingFlows ==> isSend(ev(p)) && evch(ev(p)) == old(gw.awaitingActions[p - evlen - 1])) &&
+//@         isSend(ev(old(evlen) + gw.noOfIncomingFlows)) && evch(ev(old(evlen) + gw.noOfIncomingFlows)) == evval(ev(old(evlen))).(nextActionMessage).response &&
+//@         isTrace(ev(evlen - 1)) && is(evval(ev(evlen - 1)), IncomingFlowProcessedTrace)
 //@     iter ensures [release-one-token-per-outgoing]
-//@       isRecv(Δev(0)) && evch(Δev(0)) == gw.mch && is(evval(Δev(0)), nextActionMessage) &&
+//@       isRecv(ev(old(evlen))) && evch(ev(old(evlen))) == gw.mch && is(evval(ev(old(evlen))), nextActionMessage) &&
 //@       old(gw.reportedIncomingFlows) + 1 == gw.noOfIncomingFlows ==>
-//@         forall k int, a int :: 0 <= k && k < gw.noOfIncomingFlows &&
-//@           shareGets(k, gw.noOfIncomingFlows, len(gw.wiring.outgoing)) &&
-//@           k <= a && a < shareHi(k, gw.noOfIncomingFlows, len(gw.wiring.outgoing)) ==>
-//@             is(evval(Δev(1 + k)), flowAction) &&
-//@             len(evval(Δev(1 + k)).(flowAction).sequenceFlows) == shareHi(k, gw.noOfIncomingFlows, len(gw.wiring.outgoing)) - k &&
-//@             evval(Δev(1 + k)).(flowAction).sequenceFlows[a - k] == elemptr(gw.wiring.outgoing, a) &&
-//@             evval(Δev(1 + k)).(flowAction).unconditionalFlows[a - k] == a - k
+//@         forall p int :: old(evlen) + 1 <= p && p <= old(evlen) + gw.noOfIncomingFlows &&
+//@           shareGets(p - old(evlen) - 1, gw.noOfIncomingFlows, len(gw.wiring.outgoing)) ==>
+//@             is(evval(ev(p)), flowAction) &&
+//@             len(evval(ev(p)).(flowAction).sequenceFlows) == shareHi(p - old(evlen) - 1, gw.noOfIncomingFlows, len(gw.wiring.outgoing)) - (p - old(evlen) - 1) &&
+//@             off(evval(ev(p)).(flowAction).sequenceFlows) == p - old(evlen) - 1 &&
+//@             len(evval(ev(p)).(flowAction).unconditionalFlows) == len(evval(ev(p)).(flowAction).sequenceFlows) &&
+//@             off(evval(ev(p)).(flowAction).unconditionalFlows) == 0
+//@     iter ensures [release-flows-are-the-outgoing]
+//@       isRecv(ev(old(evlen))) && evch(ev(old(evlen))) == gw.mch && is(evval(ev(old(evlen))), nextActionMessage) &&
+//@       old(gw.reportedIncomingFlows) + 1 == gw.noOfIncomingFlows ==>
+//@         forall p int, a int :: old(evlen) + 1 <= p && p <= old(evlen) + gw.noOfIncomingFlows &&
+//@           shareGets(p - old(evlen) - 1, gw.noOfIncomingFlows, len(gw.wiring.outgoing)) &&
+//@           p - old(evlen) - 1 <= a && a < shareHi(p - old(evlen) - 1, gw.noOfIncomingFlows, len(gw.wiring.outgoing)) ==>
+//@             at(evval(ev(p)).(flowAction).sequenceFlows, a) == elemptr(gw.wiring.outgoing, a)
+//@     iter ensures [release-flows-unconditional]
+//@       isRecv(ev(old(evlen))) && evch(ev(old(evlen))) == gw.mch && is(evval(ev(old(evlen))), nextActionMessage) &&
+//@       old(gw.reportedIncomingFlows) + 1 == gw.noOfIncomingFlows ==>
+//@         forall p int, a int :: old(evlen) + 1 <= p && p <= old(evlen) + gw.noOfIncomingFlows &&
+//@           shareGets(p - old(evlen) - 1, gw.noOfIncomingFlows, len(gw.wiring.outgoing)) &&
+//@           0 <= a && a < len(evval(ev(p)).(flowAction).unconditionalFlows) ==>
+//@             at(evval(ev(p)).(flowAction).unconditionalFlows, a) == a
 //@     iter ensures [release-surplus-consumed]
-//@       isRecv(Δev(0)) && evch(Δev(0)) == gw.mch && is(evval(Δev(0)), nextActionMessage) &&
+//@       isRecv(ev(old(evlen))) && evch(ev(old(evlen))) == gw.mch && is(evval(ev(old(evlen))), nextActionMessage) &&
 //@       old(gw.reportedIncomingFlows) + 1 == gw.noOfIncomingFlows ==>
-//@         forall k int :: 0 <= k && k < gw.noOfIncomingFlows && !shareGets(k, gw.noOfIncomingFlows, len(gw.wiring.outgoing)) ==>
-//@             is(evval(Δev(1 + k)), completeAction)
+//@         forall p int :: old(evlen) + 1 <= p && p <= old(evlen) + gw.noOfIncomingFlows &&
+//@           !shareGets(p - old(evlen) - 1, gw.noOfIncomingFlows, len(gw.wiring.outgoing)) ==>
+//@             is(evval(ev(p)), completeAction)
 //@     iter ensures [other-messages-ignored]
-//@       isRecv(Δev(0)) && evch(Δev(0)) == gw.mch && !is(evval(Δev(0)), nextActionMessage) ==>
+//@       isRecv(ev(old(evlen))) && evch(ev(old(evlen))) == gw.mch && !is(evval(ev(old(evlen))), nextActionMessage) ==>
 //@         evlen == old(evlen) + 1 && gw.reportedIncomingFlows == old(gw.reportedIncomingFlows) && gw.awaitingActions == old(gw.awaitingActions)
 
 //@ func (*parallelGateway).NextAction
